@@ -256,29 +256,37 @@ def normalize_url(
         url = "http://" + url
 
     # Platform-specific magic
+    # NOTE: the platform predicates parse the url and can raise ValueError
     if platform_aware:
-        if is_facebook_url(url):
-            p = parse_facebook_url(url)
+        try:
+            if is_facebook_url(url):
+                p = parse_facebook_url(url)
 
-            if p is not None:
-                url = p.url
+                if p is not None:
+                    url = p.url
 
-        elif is_youtube_url(url):
-            url = normalize_youtube_url(url)
+            elif is_youtube_url(url):
+                url = normalize_youtube_url(url)
+        except ValueError:
+            return original_url_arg
 
     # Parsing
+    # NOTE: accessing the port can also raise ValueError
     try:
         splitted = urlsplit(url)
+        scheme, netloc, path, query, fragment = splitted
+        user, password, hostname, port = (
+            splitted.username,
+            splitted.password,
+            splitted.hostname,
+            splitted.port,
+        )
     except ValueError:
         return original_url_arg
 
-    scheme, netloc, path, query, fragment = splitted
-    user, password, hostname, port = (
-        splitted.username,
-        splitted.password,
-        splitted.hostname,
-        splitted.port,
-    )
+    # NOTE: there is nothing to normalize without a host
+    if not hostname:
+        return original_url_arg
 
     # Fixing common mistakes
     if fix_common_mistakes and query:
